@@ -21,6 +21,14 @@ CLAIMED.update({
    text='Theorems c03_rotate_sound, c03_validate_signers_spec (+ five rejections), c03_bijection_reachable, c03_registered_forever, c03_operator_complete, c03_out_of_window_*, c03_operatorship; correspondence on rotation histories by operator / others with sets of every age and time steps around the delay.',
    note='Trusted: as C01; block time monotone; upgrade endpoint not modelled.'),
 })
+CLAIMED.update({
+ 'C09': dict(section='8/C09', technique='Coq proof (acceptance rule, two-sided net-flow bound preserved by every transaction and every history with an unchanged limit) + differential correspondence of the real token manager in the Rust VM',
+   text='Theorems c09_add_flow_spec, c09_accept_in/out, c09_reject_iff, c09_step_bounded (all sixteen operations, all callers), c09_history_bounded, c09_fresh_epoch, c09_unlimited, c09_limit_gate; EPOCH_TIME regenerated and pinned to 21600; the real contract is compared step by step (status, returns, events, storage, balances) on histories with amounts around L and epoch boundaries.',
+   note='Trusted: Coq kernel; hand-written model of token-manager tied by the correspondence; gen_tables.py; harness.'),
+ 'C10': dict(section='8/C10', technique='Coq proof (service-only, exact custody/supply effect of give/take, mint/burn gates, role transfer/proposal algebra, role frame) + differential correspondence in the Rust VM',
+   text='Theorems c10_give/take_service_only, c10_give_lock, c10_take_lock, c10_transfer_exact, c10_give_mint, c10_take_mint, c10_mint/burn_requires, c10_transfer_role, c10_accept_role (usable once), c10_*_auth, c10_roles_frame, c10_no_redeploy; correspondence over all five manager types and every caller class.',
+   note='Trusted: as C09; per-step custody statements (the history-level sum is their direct fold); ESDT role/frozen-account rules of the protocol are outside the model.'),
+})
 NOT_YET = {}
 def main():
     props = [json.loads(l) for l in open(os.path.join(ROOT, 'properties.jsonl'))]
